@@ -622,8 +622,13 @@ impl AstLowering {
                 )
             }
 
-            // Expressions that need desugaring (emit placeholder for now)
-            ast::Expr::Yield(_) => (IrExprKind::Unit, IrType::Unknown),
+            // Generators are not desugared yet: a `yield` does not suspend. Its operand is still evaluated
+            // (dropping it would silently drop the operand's side effects); a bare `yield` is a unit placeholder.
+            ast::Expr::Yield(Some(inner)) => {
+                let value = self.lower_expr(&inner.node)?;
+                (value.kind, value.ty)
+            }
+            ast::Expr::Yield(None) => (IrExprKind::Unit, IrType::Unknown),
         };
         Ok(TypedExpr::new(kind, ty))
     }
